@@ -227,6 +227,7 @@ func run(c Case, r *pbt.R) {
 		tag := uint32(0)
 		cursor := len(p.Net.Events())
 		garbagePayloads := map[uint32]bool{}
+		forgedSeq := uint64(0)
 		migrated, challenged := false, false
 		classes := map[string]bool{}
 
@@ -465,6 +466,38 @@ func run(c Case, r *pbt.R) {
 				inject(src, g)
 				process(si, st, "", st.Resp)
 				classes["garbage:"+st.Garb] = true
+			case "pchallenge":
+				// An authentic path_challenge of the mover arriving from Src. The honest mover only
+				// challenges when IT sees a new address, so the harness - which knows the session keys from
+				// the key log - seals this one record itself (DTLS 1.2 only), numbered above everything
+				// the mover has sent. The answer goes to an unvalidated address and is subject to the
+				// three-times budget.
+				if !dec.Has12 || !rrc {
+					continue // an honest peer never sends RRC messages unless the extension was negotiated
+				}
+				forgedSeq++
+				k := dec.SW
+				if mov.Name == "C" {
+					k = dec.CW
+				}
+				content := append([]byte{0}, []byte{0xc1, 0x5c, 0x15, byte(forgedSeq), 1, 2, 3, 4}...)
+				h := ref.Hdr12{Type: 27, Version: [2]byte{0xfe, 0xfd}, Epoch: 1, Seq: 1<<30 + forgedSeq}
+				pl := content
+				if len(ownObs) > 0 {
+					h.Type, h.CID = 25, ownObs
+					pl = append(append([]byte(nil), content...), 27)
+				}
+				d, err := ref.Seal12(k, h, pl, bytes.Repeat([]byte{9}, 16))
+				if err != nil {
+					continue
+				}
+				elig := ""
+				if rrc && len(ownObs) > 0 && src != active {
+					elig = src // an authentic newest record from a new address: Obs may open its own validation
+				}
+				inject(src, d)
+				process(si, st, elig, "drop")
+				classes["authentic-challenge-from-"+map[bool]string{true: "validated", false: "new"}[src == active]+"-address"] = true
 			case "owrite":
 				n := st.N%4 + 1
 				mark := len(p.Net.Events())
@@ -657,7 +690,7 @@ func damage(d []byte, how string, ver, ownLen, n int) ([]byte, bool) {
 // ---- generators ---------------------------------------------------------------------------
 
 var (
-	cidCodes = []int{0, -1, 1000, 1, 4, 8, 20}
+	cidCodes = []int{0, -1, 1000, 1, 4, 8, 20, 120}
 	srcs     = []string{"H", "B", "B", "D", "X", "X"}
 	resps    = []string{"timely", "timely", "late", "wrongaddr", "dup", "drop", "hold"}
 	garbs    = []string{"cid-flip", "cid-strip", "cid-add", "body", "trunc"}
@@ -684,9 +717,11 @@ func genCase(t *rapid.T) Case {
 	c.Obs = rapid.SampledFrom([]string{"S", "S", "C"}).Draw(t, "obs")
 	n := rapid.IntRange(1, 8).Draw(t, "nsteps")
 	for i := 0; i < n; i++ {
-		k := rapid.SampledFrom([]string{"fresh", "fresh", "fresh", "stale", "replay", "garbage", "owrite", "sleep", "release"}).Draw(t, "kind")
+		k := rapid.SampledFrom([]string{"fresh", "fresh", "fresh", "stale", "replay", "garbage", "owrite", "sleep", "release", "pchallenge"}).Draw(t, "kind")
 		st := Step{Kind: k}
 		switch k {
+		case "pchallenge":
+			st.Src = rapid.SampledFrom(srcs).Draw(t, "src")
 		case "fresh", "stale", "replay":
 			st.Src = rapid.SampledFrom(srcs).Draw(t, "src")
 			st.Resp = rapid.SampledFrom(resps).Draw(t, "resp")
@@ -755,6 +790,16 @@ func gridCases() []Case {
 	}
 	sortStrings(names)
 	var out []Case
+	// asymmetric ID lengths: a short challenge (it carries the observed side's short ID) draws a long
+	// response (it carries the peer's long ID) - the only honest-looking traffic that reaches the budget
+	for _, o := range []string{"S", "C"} {
+		for _, lens := range [][2]int{{1, 120}, {120, 1}, {1, 200}, {200, 1}, {4, 8}} {
+			for _, src := range []string{"X", "B", "H"} {
+				out = append(out, Case{Ver: 12, CIDC: lens[0], CIDS: lens[1], Obs: o, Note: "authentic-challenge",
+					Steps: []Step{{Kind: "pchallenge", Src: src}, {Kind: "pchallenge", Src: src}, {Kind: "owrite", N: 1}}})
+			}
+		}
+	}
 	for _, ver := range []int{12, 13} {
 		for _, cc := range cidCodes {
 			for _, cs := range cidCodes {
